@@ -164,37 +164,46 @@ def attachMask (shape : List Nat) : MaskSpec → Except Err (Arr Bool)
     else .error .other
   | _ => .ok ⟨shape, fun _ => false⟩       -- `nomask` with `shrink=False`: nothing masked
 
+/-- `prepare`, first step (core.py:66-74): flat data is given in grid order, so an n-dimensional
+    mask is flattened the same way before it is attached -/
+def prepMask (o : Order) (infoMask : MaskSpec) (x : Payload) : MaskSpec :=
+  match infoMask with
+  | .arr m =>
+    if x.data.ndim == 1 && decide (m.ndim > 1) then
+      .arr ⟨[prod m.shape], fun i => m.get (unravel o m.shape (i.getD 0 0))⟩
+    else .arr m
+  | other => other
+
+/-- `prepare`, second step (core.py:75-107): `if info.is_masked and not np.ma.isarray(data)` the
+    payload becomes a masked array with the (possibly flattened) info mask -/
+def prepAttach (infoMask mask : MaskSpec) (x : Payload) : Except Err Payload :=
+  if infoMask.specified && x.dmask.isNone then
+    match attachMask x.data.shape mask with
+    | .error e => .error e
+    | .ok m => .ok { x with dmask := some (some m) }
+  else .ok x
+
+/-- `_check_input_shape` (core.py:120-158) for a `Grid` with `data_shape = gshape`, `order = o`,
+    `time_entries = 1` -/
+def checkInputShape (gshape : List Nat) (o : Order) (y : Payload) : Except Err Payload :=
+  let te := if y.data.ndim == gshape.length + 1 then y.data.shape.headD 1 else 1
+  if y.data.size != te * prod gshape then .error .dataErr
+  else if y.data.ndim != 1 then
+    if y.data.shape.tail != gshape then
+      if y.data.shape == gshape then
+        .ok { y with data := y.data.expandDims0,
+                     dmask := y.dmask.map (fun dm => dm.map Arr.expandDims0) }
+      else .error .dataErr
+    else .ok y
+  else
+    .ok { y with data := y.data.reshape o (1 :: gshape),
+                 dmask := y.dmask.map (fun dm => dm.map (Arr.reshape o (1 :: gshape))) }
+
 /-- mask and shape handling of `prepare(data, info)` for an info whose grid is a `Grid` with
-    `data_shape = gshape` and `order = o` (core.py:64-158; `time_entries = 1`).  -/
+    `data_shape = gshape` and `order = o` (core.py:26-158; `time_entries = 1`). -/
 def prepare (gshape : List Nat) (o : Order) (infoMask : MaskSpec) (x : Payload) : Except Err Payload :=
-  -- flat data is given in grid order, so the mask is flattened the same way (core.py:66-74)
-  let mask : MaskSpec :=
-    match infoMask with
-    | .arr m => if x.data.ndim == 1 && decide (m.ndim > 1) then .arr ⟨[prod m.shape], fun i => m.get (unravel o m.shape (i.getD 0 0))⟩ else .arr m
-    | other => other
-  -- `if info.is_masked and not np.ma.isarray(data)`
-  let step1 : Except Err Payload :=
-    if infoMask.specified && x.dmask.isNone then
-      match attachMask x.data.shape mask with
-      | .error e => .error e
-      | .ok m => .ok { x with dmask := some (some m) }
-    else .ok x
-  match step1 with
+  match prepAttach infoMask (prepMask o infoMask x) x with
   | .error e => .error e
-  | .ok y =>
-    -- `_check_input_shape` (core.py:120-158)
-    let te := if y.data.ndim == gshape.length + 1 then y.data.shape.headD 1 else 1
-    if y.data.size != te * prod gshape then .error .dataErr
-    else if y.data.ndim != 1 then
-      if y.data.shape.tail != gshape then
-        if y.data.shape == gshape then
-          .ok { y with data := y.data.expandDims0,
-                       dmask := y.dmask.map (fun dm => dm.map Arr.expandDims0) }
-        else .error .dataErr
-      else .ok y
-    else
-      let sh := 1 :: gshape
-      .ok { y with data := y.data.reshape o sh,
-                   dmask := y.dmask.map (fun dm => dm.map (Arr.reshape o sh)) }
+  | .ok y => checkInputShape gshape o y
 
 end Finam
